@@ -184,6 +184,8 @@ func (w *world) reprobe() {
 	w.real = newReal
 }
 
+var worldInitLocked bool
+
 func (w *world) applyDev(a kv) {
 	d := w.dev
 	if _, ok := a["reprobe"]; ok {
@@ -205,6 +207,16 @@ func (w *world) applyDev(a kv) {
 			d.Rpm, _ = strconv.Atoi(v)
 		case "glitch":
 			d.PwmReadGlitch, _ = strconv.Atoi(v)
+		case "initlock":
+			// another fan of the daemon is being analysed from now on (initlock=1: the serialisation lock of the start-up
+			// analysis is held) / its analysis is over (initlock=0); regulation of THIS fan goes on unaffected
+			if v == "1" && !worldInitLocked {
+				controller.InitializationSequenceMutex.Lock()
+				worldInitLocked = true
+			} else if v == "0" && worldInitLocked {
+				controller.InitializationSequenceMutex.Unlock()
+				worldInitLocked = false
+			}
 		case "resp":
 			d.Resp = parseResp(v)
 		case "pwmread":
@@ -296,6 +308,10 @@ func init() {
 	register("w", func(op string, a kv) string {
 		switch op {
 		case "w.new":
+			if worldInitLocked {
+				controller.InitializationSequenceMutex.Unlock()
+				worldInitLocked = false
+			}
 			if worldDirBase == "" {
 				d, err := os.MkdirTemp("", "verifworld")
 				if err != nil {
